@@ -87,12 +87,18 @@ pub fn check_schema(s: &str) -> Option<Witness> {
     cases.push(("CREATE TYPE label", "postgres", ty.to_string(PostgresQueryBuilder)));
     let ta = extension::postgres::Type::alter().name(a("e")).add_value(a(s)).to_owned();
     cases.push(("ALTER TYPE ADD VALUE", "postgres", ta.to_string(PostgresQueryBuilder)));
-    let q = Query::select().column(a("c")).from(a("t")).and_where(Expr::col(a("c")).like(LikeExpr::new(s).escape('!'))).order_by(a("c"), Order::Field(Values(vec![s.into()]))).to_owned();
-    cases.push(("LIKE pattern / ORDER BY FIELD", "mysql", q.to_string(MysqlQueryBuilder))); cases.push(("LIKE pattern / ORDER BY FIELD", "postgres", q.to_string(PostgresQueryBuilder))); cases.push(("LIKE pattern / ORDER BY FIELD", "sqlite", q.to_string(SqliteQueryBuilder)));
+    // one inline position per statement (a second literal of the same value would mask a broken one)
+    let q = Query::select().column(a("c")).from(a("t")).and_where(Expr::col(a("c")).like(LikeExpr::new(s).escape('!'))).to_owned();
+    cases.push(("LIKE pattern", "mysql", q.to_string(MysqlQueryBuilder))); cases.push(("LIKE pattern", "postgres", q.to_string(PostgresQueryBuilder))); cases.push(("LIKE pattern", "sqlite", q.to_string(SqliteQueryBuilder)));
+    let q = Query::select().column(a("c")).from(a("t")).order_by(a("c"), Order::Field(Values(vec![1.into(), s.into()]))).to_owned();
+    cases.push(("ORDER BY FIELD", "mysql", q.to_string(MysqlQueryBuilder))); cases.push(("ORDER BY FIELD", "postgres", q.to_string(PostgresQueryBuilder))); cases.push(("ORDER BY FIELD", "sqlite", q.to_string(SqliteQueryBuilder)));
+    let q = |tpl: &str| Query::select().expr(Expr::cust_with_values(tpl, [s])).expr(Expr::val(s)).to_owned();
+    cases.push(("value / custom value", "mysql", q("?").to_string(MysqlQueryBuilder))); cases.push(("value / custom value", "postgres", q("$1").to_string(PostgresQueryBuilder))); cases.push(("value / custom value", "sqlite", q("?").to_string(SqliteQueryBuilder)));
     for (pos, name, sql) in cases {
         if name != "mysql" && s.contains('\0') { continue; }
         let lits = literals(&sql, name);
-        if !lits.iter().any(|l| l == s) {
+        let want = if pos == "value / custom value" { 2 } else { 1 };
+        if lits.iter().filter(|l| *l == s).count() < want {
             return Some(Witness { property: "C03", input: format!("schema:{s}"), observed: format!("{pos} [{name}]: {sql}  -- literals decode to {lits:?}"), expected: format!("a literal decoding to {s:?}") });
         }
     }
